@@ -3,6 +3,7 @@ package c16
 import (
 	"fmt"
 	"math"
+	"sync"
 	"testing"
 
 	"github.com/deadsy/sdfx/sdf"
@@ -419,6 +420,50 @@ func TestUnionPruned(t *testing.T) {
 			} else {
 				rec.Violation(t, "Union2D:blend-reaches-pruned-operand", "ops %v blend %s(%v) p %v: fast %v slow %v (evaluated %d of %d)", desc, bl.name, bl.k, p, fast, slow, nEval, n)
 			}
+		}
+		// the same queries from several goroutines at once (the uniform marching-cubes renderer evaluates an
+		// extruded union that way): the pruned evaluation must not depend on who else is evaluating
+		if rapid.IntRange(0, 3).Draw(t, "concurrent-callers") == 0 {
+			var qs []v2.Vec
+			c, h := bb.Center(), bb.Size().MulScalar(1.5)
+			for j := 0; j < 64; j++ {
+				qs = append(qs, v2.Vec{X: c.X + g.F(-1, 1).Draw(t, fmt.Sprintf("cq%d.x", j))*h.X, Y: c.Y + g.F(-1, 1).Draw(t, fmt.Sprintf("cq%d.y", j))*h.Y})
+			}
+			want := make([]float64, len(qs))
+			for j, q := range qs {
+				want[j] = u.EvaluateSlow(q)
+			}
+			const G = 8
+			got := make([][]float64, G)
+			var wg sync.WaitGroup
+			for gi := 0; gi < G; gi++ {
+				wg.Add(1)
+				go func(gi int) {
+					defer wg.Done()
+					out := make([]float64, len(qs))
+					for rep := 0; rep < 20; rep++ {
+						for j := range qs {
+							jj := (j*7 + gi*13 + rep) % len(qs)
+							out[jj] = u.Evaluate(qs[jj])
+						}
+					}
+					got[gi] = out
+				}(gi)
+			}
+			wg.Wait()
+			for gi := range got {
+				for j := range qs {
+					a, b := got[gi][j], want[j]
+					bad := a != b && !(math.IsNaN(a) && math.IsNaN(b))
+					if bl.f != nil {
+						bad = math.Abs(a) > 1e-9*S && math.Abs(b) > 1e-9*S && (a < 0) != (b < 0)
+					}
+					if bad {
+						rec.Violation(t, "Union2D:value-under-concurrent-callers", "ops %v blend %s p %v: Evaluate from goroutine %d of %d gave %v, exhaustive evaluation %v", desc, bl.name, qs[j], gi, G, a, b)
+					}
+				}
+			}
+			rec.Add("union:concurrent-caller-cases", 1)
 		}
 		rec.Case(prunedSomewhere, ev.Key(desc, bl.name, bl.k), "union:layout="+layout, "union:blend="+bl.name, fmt.Sprintf("union:n=%d", n), fmt.Sprintf("union:has-nested-union-operand=%v", nestedOps > 0))
 		rec.Sample("union:"+bl.name, map[string]any{"operands": desc, "blend": bl.name, "k": bl.k, "points": npts, "pruned_somewhere": prunedSomewhere})
